@@ -137,6 +137,7 @@ def worker(task):
             got = [list(x) for x in r["runs"]]
             for run in got:
                 res["nontrivial"].add(common.h(d["name"], decl["id"], run[0], run[1], run[2]))
+                res["evals"] += 1   # one evaluation = one maximal run of equal outcomes judged against the model
             if got != want:
                 # first differing point
                 x, gc, wc = first_diff(got, want)
@@ -239,6 +240,7 @@ def py_worker(task):
             got = r["runs"]
             for run in got:
                 res["nontrivial"].add(common.h("py", d["name"], decl["id"], run[0], run[1], run[2]))
+                res["evals"] += 1
             if got != want:
                 x, gc, wc = first_diff(got, want)
                 kind = "accepts-invalid" if wc.startswith("X") and not gc.startswith("X") else \
@@ -311,6 +313,7 @@ def cxx_worker(task):
                     merged.append([a, b, c])
             for run in merged:
                 res["nontrivial"].add(common.h("cxx", d["name"], decl["id"], run[0], run[1], run[2]))
+                res["evals"] += 1
             if merged != want:
                 x, gc, wc = first_diff([[a, b, str(c)] for a, b, c in merged], [[a, b, str(c)] for a, b, c in want])
                 where = "tag" if x in e.values else "range" if any(s_ <= x <= t_ for s_, t_, _ in e.ranges) else \
